@@ -161,13 +161,20 @@ def axiom_audit(module, names):
     """#print axioms for every property theorem; returns (ok, per-theorem dict, raw)"""
     if not names:
         return True, {}, ""
-    audit = os.path.join(LEAN_DIR, ".lake", "audit_%s.lean" % module.replace(".", "_"))
+    # one file per process (several checks may run at the same time and all of them audit the pinned constants), and the
+    # run takes the build lock: nobody rewrites compiled files while they are being read
+    audit = os.path.join(LEAN_DIR, ".lake", "audit_%s_%d.lean" % (module.replace(".", "_"), os.getpid()))
     with open(audit, "w") as f:
         f.write("import %s\n" % module)
         for n in names:
             f.write("#print axioms %s\n" % n)
-    proc = subprocess.run(["lake", "env", "lean", audit], cwd=LEAN_DIR, stdout=subprocess.PIPE,
-                          stderr=subprocess.STDOUT)
+    try:
+        proc = _locked(["lake", "env", "lean", audit], timeout=900)
+    finally:
+        try:
+            os.remove(audit)
+        except OSError:
+            pass
     raw = proc.stdout.decode(errors="replace")
     per = {}
     for m in re.finditer(r"'(\S+)' depends on axioms: \[([^\]]*)\]", raw, re.S):
